@@ -17,13 +17,13 @@ COQ_CHECK = 'Balancer.check_case'
 COQ_EXPLAIN = 'Balancer.explain_case'
 SHARD = 40
 WORKERS = 6
-RULE = ('seeded random histories over 1-12 members (+ up to 3 spare endpoints): 20-200 relative operations drawn from phase '
+RULE = ('25% of the histories run (monitor only, not sent to the Coq model) on a REAL ApertureBalancerSink: min_size 1-3 of 4-8 servers, idle servers outside the aperture, no jitter, fake clock, 30% with load-driven resizing - the aperture is loaded, the least-loaded member\'s channel is taken down and requests are dispatched (expansion on node-down), checked by the least-loaded oracle over the aperture members; 40% of the rest go through the real ClientTimeoutSink, 10% use a provider with endpoint_name; seeded random histories over 1-12 members (+ up to 3 spare endpoints): 20-200 relative operations drawn from phase '
         'profiles (load-up, drain-the-least-loaded-member-to-idle [the F3 pattern], channel flapping incl. faults, '
         'join/leave churn, steady), completion by reply/error/timeout/direct context call, second completions, random '
         'randint outcomes, initial channel state Open/Idle/Closed, 15% on ApertureBalancerSink with all members active; '
         'every history ends in a saturating burst; plus (thorough) every length-6 sequence over a 4-letter alphabet on 4 members; '
         'non-trivial = at least 3 requests were dispatched; distinct by canonical JSON of (case, observation)')
-TRUSTED = ['mock channel sinks / server-set provider / scripted random of harness/c03_balancer_driver.py',
+TRUSTED = ['for real-aperture cases the set of aperture members is read from the balancer\'s heap array (a contraction is not observable from outside)', 'mock channel sinks / server-set provider / scripted random of harness/c03_balancer_driver.py',
            'reference counters of the monitor (analyse) in the same file']
 ASSUMPTIONS = ['channel state is constant during one dispatch (no yield inside __Get; the heap lock is held)',
                'fewer than 2^31-1 requests outstanding per member (the code encodes "marked down" as load >= 0)',
